@@ -928,8 +928,47 @@ def mod(repo=None):
     return loader.module(OMML, repo)
 
 
+_PURE_BUILTINS = {k: __builtins__[k] if isinstance(__builtins__, dict) else getattr(__builtins__, k) for k in
+                  ("frozenset", "tuple", "dict", "set", "list", "sorted", "str", "len", "range", "zip", "enumerate", "chr", "ord",
+                   "int", "bool", "min", "max", "sum", "reversed", "map", "filter", "repr", "any", "all", "abs")}
+
+
+def const_value(m, name, _depth=0):
+    """value of a module-level constant of the real source: a literal, or a pure expression over literals, other such
+    constants and pure builtins (dict merges, comprehensions, f-strings ...) evaluated without any other name in scope.
+    Raises ValueError when the initialiser is not of that kind."""
+    if name not in m.assigns or _depth > 8:
+        raise ValueError(f"{name}: not a module-level constant")
+    node = m.assigns[name]
+    try:
+        return ast.literal_eval(node)
+    except (ValueError, SyntaxError, TypeError):
+        pass
+    for n in ast.walk(node):
+        if isinstance(n, (ast.Lambda, ast.Await, ast.Yield, ast.YieldFrom, ast.NamedExpr, ast.Attribute)) and not (
+                isinstance(n, ast.Attribute) and isinstance(n.ctx, ast.Load)):
+            raise ValueError(f"{name}: initialiser is not a pure constant expression")
+    bound = {t.id for n in ast.walk(node) if isinstance(n, ast.comprehension) for t in ast.walk(n.target) if isinstance(t, ast.Name)}
+    env = {}
+    for n in ast.walk(node):
+        if isinstance(n, ast.Name) and isinstance(n.ctx, ast.Load) and n.id not in bound and n.id not in _PURE_BUILTINS:
+            env[n.id] = const_value(m, n.id, _depth + 1)
+    try:
+        return eval(compile(ast.Expression(node), m.rel, "eval"), {"__builtins__": dict(_PURE_BUILTINS)}, env)
+    except Exception as e:  # noqa
+        raise ValueError(f"{name}: {type(e).__name__}: {e}")
+
+
+def skip_tags(m):
+    try:
+        v = const_value(m, "_SKIP_TAGS")
+        return sorted(x for x in v if isinstance(x, str))
+    except (ValueError, TypeError):
+        return None
+
+
 def M_NS(repo=None):
-    return mod(repo).literal("M_NS")
+    return const_value(mod(repo), "M_NS")
 
 
 def Q(name, repo=None):
@@ -1156,7 +1195,15 @@ def contracts(reg):
     install(reg)
     m = mod()
     out = []
-    greek = m.literal("GREEK_TO_LATEX")
+    try:
+        greek = const_value(m, "GREEK_TO_LATEX")
+        # the executor reads the same evaluated tables (whatever pure expression builds them in the source)
+        reg.module_consts[(OMML, "GREEK_TO_LATEX")] = ops.lift(dict(greek))
+        if skip_tags(m) is not None:
+            from pyvc.values import VSetC
+            reg.module_consts[(OMML, "_SKIP_TAGS")] = VSetC(skip_tags(m), "_SKIP_TAGS")
+    except (ValueError, TypeError):
+        greek = {}
     fn_conv = m.functions["convert_greek_and_symbols"]
     fn_omml = m.functions["omml_to_latex"]
 
@@ -1236,7 +1283,9 @@ def contracts(reg):
         ev = A0(c)
         if not verifying(c) or not isinstance(ev, VExt):
             return z3.BoolVal(True)
-        tags = sorted(c.ex.module_const("_SKIP_TAGS").items)
+        tags = skip_tags(mod(c.ex.module.repo))
+        if tags is None:
+            return z3.BoolVal(False)
         is_skip = z3.Or([lname(ev.t) == sval(k) for k in tags])
         return z3.Implies(is_skip, z3.And(c.result.t == sval(""), p_same(c.args[PENDING], c.closure(PENDING)),
                                           z3.BoolVal(len(rcalls(c)) == 0)))
@@ -1311,14 +1360,11 @@ def tables(repo, tier):
     G = lambda oid, ok, why="": obls.append(ground_obligation(
         f"C19/omml_to_latex.py::{oid}", ok, why, "tables", kind="module-invariant", backend="ground"))
     try:
-        greek = m.literal("GREEK_TO_LATEX")
-        ns = m.literal("M_NS")
+        greek = const_value(m, "GREEK_TO_LATEX")
+        ns = const_value(m, "M_NS")
     except Exception as e:  # noqa
         return {"undecided": [{"obligation": "C19/omml_to_latex.py::tables", "why": f"table not a literal: {e}"}]}
-    ex = Executor(m, Registry(), Universe(repo))
-    ex.sinks.append([])
-    skip = ex.module_const("_SKIP_TAGS")
-    skip = set(getattr(skip, "items", ()))
+    skip = set(skip_tags(m) or ())
     lb, rb, nw = (HOMS[h][1] for h in HN)
     bad = [k for k in greek if not (isinstance(k, str) and len(k) == 1)]
     G("GREEK_TO_LATEX/module-invariant#keys-are-single-characters", not bad and len(greek) > 0, repr(bad))
